@@ -22,6 +22,10 @@ RULE = (
     "well-formedness of first/second on the relations they would be applied to is checked; refusals must hand back "
     "the existing operation.  Non-trivial = a move was reported; distinct = (new kind, existing kind, outcome, "
     "collision flags)."
+    "  The existing operation may also be a user-defined count-dependent RowFilter or order-dependent Reordering "
+    "(evaluated by the interpreter through their own definition); a report with first=None and done=True is "
+    "evaluated as the documented 'simplifies away' case (second alone must equal existing-then-new); further "
+    "commutes are issued against the same relation object. "
 )
 ASSUMPTIONS = [
     "interpreter vmon/interp.py (full-row deduplication; witness rows satisfy the key functional dependency)",
